@@ -42,13 +42,13 @@ import (
 )
 
 const (
-	wtFrameType            = 0x41   // WEBTRANSPORT_STREAM signal value
-	wtCloseSessionCapsule  = 0x2843 // CLOSE_WEBTRANSPORT_SESSION
-	wtSettingsEnable       = 0x2b603742
-	wtAppErrorZero         = quic.StreamErrorCode(0x52e4a40fa8db) // WebTransport application error 0 mapped into the HTTP/3 space
-	h3NoError              = 0x100
-	h3RequestCancelled     = 0x10c
-	wtLocalAddr    simAddr = "10.0.0.1:443"
+	wtFrameType                   = 0x41   // WEBTRANSPORT_STREAM signal value
+	wtCloseSessionCapsule         = 0x2843 // CLOSE_WEBTRANSPORT_SESSION
+	wtSettingsEnable              = 0x2b603742
+	wtAppErrorZero                = quic.StreamErrorCode(0x52e4a40fa8db) // WebTransport application error 0 mapped into the HTTP/3 space
+	h3NoError                     = 0x100
+	h3RequestCancelled            = 0x10c
+	wtLocalAddr           simAddr = "10.0.0.1:443"
 )
 
 // ---- per-World state -----------------------------------------------------------
@@ -101,7 +101,8 @@ func (w *World) wtState() *wtWorld {
 }
 
 // closeWT ends everything WebTransport of this World: sessions whose client
-// never closed them, then the webtransport.Server.  Safe to call twice.
+// never closed them, then the webtransport.Server.  It must be called from a
+// task (it parks); safe to call twice.
 func (w *World) closeWT() {
 	st := w.wtLookup()
 	if st == nil {
@@ -168,17 +169,21 @@ func (cn *wtConn) isHijacked() bool {
 
 var errWTNoServerStreams = errors.New("sim: server-initiated streams are not modelled")
 
-func (cn *wtConn) OpenStream() (quic.Stream, error)                         { return nil, errWTNoServerStreams }
-func (cn *wtConn) OpenStreamSync(context.Context) (quic.Stream, error)      { return nil, errWTNoServerStreams }
-func (cn *wtConn) OpenUniStream() (quic.SendStream, error)                  { return nil, errWTNoServerStreams }
+func (cn *wtConn) OpenStream() (quic.Stream, error) { return nil, errWTNoServerStreams }
+func (cn *wtConn) OpenStreamSync(context.Context) (quic.Stream, error) {
+	return nil, errWTNoServerStreams
+}
+func (cn *wtConn) OpenUniStream() (quic.SendStream, error) { return nil, errWTNoServerStreams }
 func (cn *wtConn) OpenUniStreamSync(context.Context) (quic.SendStream, error) {
 	return nil, errWTNoServerStreams
 }
-func (cn *wtConn) LocalAddr() net.Addr                   { return wtLocalAddr }
-func (cn *wtConn) RemoteAddr() net.Addr                  { return cn.remote }
-func (cn *wtConn) Context() context.Context              { return cn.ctx }
-func (cn *wtConn) ConnectionState() quic.ConnectionState { return quic.ConnectionState{SupportsDatagrams: true, Version: quic.Version1} }
-func (cn *wtConn) ReceivedSettings() <-chan struct{}     { return cn.settings }
+func (cn *wtConn) LocalAddr() net.Addr      { return wtLocalAddr }
+func (cn *wtConn) RemoteAddr() net.Addr     { return cn.remote }
+func (cn *wtConn) Context() context.Context { return cn.ctx }
+func (cn *wtConn) ConnectionState() quic.ConnectionState {
+	return quic.ConnectionState{SupportsDatagrams: true, Version: quic.Version1}
+}
+func (cn *wtConn) ReceivedSettings() <-chan struct{} { return cn.settings }
 func (cn *wtConn) Settings() *http3.Settings {
 	return &http3.Settings{EnableDatagrams: true, EnableExtendedConnect: true, Other: map[uint64]uint64{wtSettingsEnable: 1}}
 }
@@ -296,7 +301,7 @@ var _ http3.Stream = (*wtStream)(nil)
 var _ http3.Connection = (*wtConn)(nil)
 
 func (s *wtStream) StreamID() quic.StreamID    { return s.id }
-func (s *wtStream) Context() context.Context  { return s.ctx }
+func (s *wtStream) Context() context.Context   { return s.ctx }
 func (s *wtStream) Read(b []byte) (int, error) { return s.in.read(b) }
 
 func (s *wtStream) Write(b []byte) (int, error) {
@@ -504,6 +509,10 @@ func (c *Client) wtOpen(first []byte) (*wtClient, *Resp) {
 }
 
 func (s *wtClient) kind() string { return "webtransport" }
+
+// inHalf is the client->server direction of the data stream (fault plans set
+// frag / failAt / failErr on it before traffic flows).
+func (s *wtClient) inHalf() *half { return s.conn.bidi.in }
 
 func (s *wtClient) sendPacket(p ref.Packet) error {
 	var data []byte
